@@ -23,7 +23,7 @@ func init() {
 			"(R4) Manager.terminate closes the transport and the stream buffer in its first-set-wins branch; Stream.Cancel sets cancel, send=EOF and terminates unless finished; " +
 			"(R5) every error that originates from the shared writer and is returned by a Stream method passes through checkCancelError; " +
 			"(R6) every blocking select in drpcmanager has a term or ctx.Done case, and every bare blocking operation there is one of the reviewed, paired ones; " +
-				"(R7) in drpcconn no mutex is held at a call of Manager.NewClientStream: a second call that has to wait for the stream slot waits in acquireSemaphore's select (which has the ctx.Done case), not in sync.Mutex.Lock behind the first call.",
+			"(R7) in drpcconn no mutex is held at a call of Manager.NewClientStream: a second call that has to wait for the stream slot waits in acquireSemaphore's select (which has the ctx.Done case), not in sync.Mutex.Lock behind the first call.",
 		NotDecided: "that every blocked call actually returns for every in-flight set of operations; peer-side cancellation; usability of the connection afterwards; the soft-cancel busy race (try-lock failing for a non-blocking holder) noted in DESIGN.md.",
 		Assumptions: []string{
 			"packetBuffer.Close's wait for a held buffer is bounded by one enc.Unmarshal call of the application",
